@@ -39,6 +39,8 @@ def dispatch (line : String) : String :=
   | "lffull" :: args => C04.lffull args
   | "lffrag" :: args => C04.lffrag args
   | "canjoin" :: args => C04.canjoin args
+  | "lfnever" :: args => C04.lfnever args
+  | "lfjoined" :: args => C04.lfjoined args
   | "lfanalyse" :: args => C04.lfanalyse args
   | "lfpossible" :: args => C04.lfpossible args
   | "flightlog" :: args => C14.flightlog args
